@@ -5,30 +5,31 @@
 MD=$(cd "$1" && pwd); shift
 PROPS="$*"
 WT=${MUT_WT:-/tmp/mutrun}
+L=${MUT_LOG:-/tmp}; mkdir -p "$L"
 ROOT=$(cd "$(dirname "$0")/.." && pwd)
 export CARGO_NET_OFFLINE=true RUST_BACKTRACE=0
 if [ ! -d "$WT/.git" ] && [ ! -f "$WT/.git" ]; then git -C /repo worktree add -q --detach "$WT" HEAD || exit 3; fi
 git -C "$WT" checkout -q --detach "$(git -C /repo rev-parse HEAD)" 2>/dev/null
 git -C "$WT" checkout -q -- . ; git -C "$WT" clean -fdq -e target
 res() { echo "MUTANT $(basename "$(dirname "$MD")")/$(basename "$MD") $*"; }
-git -C "$WT" apply "$MD/patch.diff" 2>/tmp/mut_apply.err || { res "apply=FAIL $(head -1 /tmp/mut_apply.err)"; exit 3; }
-(cd "$WT" && cargo build --offline >/tmp/mut_build.log 2>&1) || { res "build=FAIL"; git -C "$WT" checkout -q -- .; exit 3; }
+git -C "$WT" apply "$MD/patch.diff" 2>$L/mut_apply.err || { res "apply=FAIL $(head -1 $L/mut_apply.err)"; exit 3; }
+(cd "$WT" && cargo build --offline >$L/mut_build.log 2>&1) || { res "build=FAIL"; git -C "$WT" checkout -q -- .; exit 3; }
 T=$(cd "$WT" && cargo test --workspace --no-fail-fast --offline 2>&1 | grep -E "^test result" | awk '{p+=$4; f+=$6} END {print p "/" f}')
 demo() {
     if [ -f "$MD/demo_test.rs" ]; then
         cp "$MD/demo_test.rs" "$WT/tests/demo_k.rs"
-        (cd "$WT" && cargo test --offline --test demo_k >/tmp/mut_demo.log 2>&1); r=$?
+        (cd "$WT" && cargo test --offline --test demo_k >$L/mut_demo.log 2>&1); r=$?
         rm -f "$WT/tests/demo_k.rs"; return $r
     elif [ -f "$MD/demo.sh" ]; then
-        sh "$MD/demo.sh" "$WT" >/tmp/mut_demo.log 2>&1; return $?
+        sh "$MD/demo.sh" "$WT" >$L/mut_demo.log 2>&1; return $?
     fi
     return 99
 }
 demo; DW=$?
 CH=""
 for p in $PROPS; do
-    HDV_REPO="$WT" HDV_EVIDENCE_DIR=/tmp/mut_evidence "$ROOT/check" "$p" quick >/tmp/mut_check_$p.log 2>&1; rc=$?
-    sub=$(grep -m3 "subcheck=" /tmp/mut_check_$p.log | sed 's/.*subcheck=\([^ ]*\).*/\1/' | sort -u | tr '\n' ',')
+    HDV_REPO="$WT" HDV_EVIDENCE_DIR=$L/mut_evidence "$ROOT/check" "$p" quick >$L/mut_check_$p.log 2>&1; rc=$?
+    sub=$(grep -m3 "subcheck=" $L/mut_check_$p.log | sed 's/.*subcheck=\([^ ]*\).*/\1/' | sort -u | tr '\n' ',')
     CH="$CH $p=$rc[$sub]"
 done
 git -C "$WT" checkout -q -- . ; git -C "$WT" clean -fdq -e target
